@@ -224,7 +224,8 @@ class Check(BaseCheck):
                 if k < 0.4:
                     return rnd.choice(['abc', '', 'x y', '12', 'é', ' ', 'TRUE', '#N/A', '1.50', 'a"b', "it's"])
                 if k < 0.65:
-                    return rnd.choice([0, 1, -1, 42, 10 ** 15, -7, rnd.randint(-10 ** 6, 10 ** 6)])
+                    return rnd.choice([0, 1, -1, 42, 10 ** 15, -7, rnd.randint(-10 ** 6, 10 ** 6), 10 ** 650, 10 ** 1200 + 7, -(10 ** 700), rnd.randint(10 ** 620, 10 ** 640) * 10 ** 30,
+                                       int('9' * 599 + '0' * 40 + '5')])
                 if k < 0.78:
                     # an integer is an integer whether it is held as int or as float (6/3 is 2): its digits
                     return float(rnd.choice([0, 2, -3, 42, 10 ** 6, 123456789, rnd.randint(-10 ** 9, 10 ** 9)]))
